@@ -24,27 +24,32 @@ theorem join_split_restores (iv : Iv) (h : WF iv) (nop : List Nat) (nextId : Nat
     ∃ r, join nop (fun _ => none) ((split iv).map (fun s => (s, (none : Option Nat)))) nextId = .ok r ∧ Same r iv :=
   join_split iv h nop nextId
 
-/-- one iteration of the split loop is undone by appending -/
-theorem cut_is_undone_by_append (iv : Iv) (c : Nat) (hf : Full iv) (hc : c ≤ iv.size) :
-    Same (joinPlain (cutOne iv c).1 (cutOne iv c).2) iv :=
-  cut_then_join iv c hf hc
+/-- one iteration of the split loop (the last group `g` of the blocks is cut off) is undone by
+appending -/
+theorem cut_is_undone_by_append (iv : Iv) (front g : List Blk) (hb : iv.blocks = front ++ g)
+    (hge : ∀ b ∈ g, beginOf g ≤ b.off) (hf : Full iv) (hc : beginOf g ≤ iv.size) :
+    Same (joinPlain (cutOne iv g).1 (cutOne iv g).2) iv :=
+  cut_then_join iv front g hb hge hf hc
 
 /-- a block moved into the new interval keeps its bytes and its absolute address -/
-theorem cut_keeps_block_bytes_and_address (iv : Iv) (c : Nat) (b : Blk) (hb : b ∈ iv.blocks) (hc : c ≤ b.off) :
-    ({ b with off := b.off - c } : Blk) ∈ (cutOne iv c).2.blocks ∧
-    (((cutOne iv c).2.contents.drop (b.off - c)).take b.size = (iv.contents.drop b.off).take b.size) ∧
-    ((cutOne iv c).2.addr.map (· + (b.off - c)) = iv.addr.map (· + b.off)) := by
+theorem cut_keeps_block_bytes_and_address (iv : Iv) (g : List Blk) (b : Blk) (hb : b ∈ g) (hc : beginOf g ≤ b.off) :
+    ({ b with off := b.off - beginOf g } : Blk) ∈ (cutOne iv g).2.blocks ∧
+    (((cutOne iv g).2.contents.drop (b.off - beginOf g)).take b.size = (iv.contents.drop b.off).take b.size) ∧
+    ((cutOne iv g).2.addr.map (· + (b.off - beginOf g)) = iv.addr.map (· + b.off)) := by
   unfold cutOne
   simp only []
   refine ⟨?_, ?_, ?_⟩
-  · apply List.mem_map.mpr
-    exact ⟨b, List.mem_filter.mpr ⟨hb, by simpa using hc⟩, rfl⟩
+  · exact List.mem_map.mpr ⟨b, hb, rfl⟩
   · rw [List.drop_drop]
     congr 2
     omega
   · cases iv.addr with
     | none => rfl
     | some a => simp only [Option.map_some]; congr 1; omega
+
+/-- grouping loses no block: the groups, in order, are the blocks -/
+theorem groups_partition_the_blocks (iv : Iv) : (groups iv).flatten = iv.blocks := by
+  unfold groups; rw [groupRuns_flatten]; simp
 
 /-- padding arithmetic: the next boundary is reached with less than one boundary of padding -/
 theorem padding_reaches_the_boundary (x a : Nat) (ha : 1 < a) :
